@@ -9,7 +9,7 @@ from libertem_blobfinder.common import gridmatching as grm
 PROP = "C09"
 LEAN_MODULE = "BlobfinderModel.Properties.C09"
 GEN_FILES = ["Crop", "Blocks"]
-FRAGMENTS = ["crop_cell", "sl_coord_y", "sl_coord_x", "sl_bounds",
+FRAGMENTS = ["crop_cell", "sl_bounds",
              "fast_blocks", "full_blocks", "full_buffers"]
 DRIVER = "drvcorr"
 RULE = ("correspondence: random histories of 2..5 process_frame_fast calls on shared crop buffers; after every "
